@@ -11,6 +11,7 @@ git -C /repo archive HEAD | tar -x -C "$w/pristine"
 git -C /repo archive HEAD | tar -x -C "$w/patched"
 {
 echo "date: $(date -u)"
+echo "repo_head: $(git -C /repo rev-parse --short HEAD)"
 (cd "$w/patched" && git init -q . 2>/dev/null; git apply "$d/patch.diff") && echo "patch: applies" || { echo "patch: DOES NOT APPLY"; }
 (cd "$w/pristine" && PYTHONPATH="$w/pristine" timeout 300 /venv/bin/python "$d/demo.py" >/dev/null 2>&1); echo "demo_pristine_exit: $?"
 (cd "$w/patched" && PYTHONPATH="$w/patched" timeout 300 /venv/bin/python "$d/demo.py" >/dev/null 2>&1); echo "demo_patched_exit: $?"
